@@ -236,6 +236,68 @@ func runCase(req string) (obs string) {
 	defer cancel()
 	var hs []*hstate
 	apps := map[int]*appSub{}
+	// every registration is made from a slice the "application" owns, has spare capacity and keeps (`xs...` passes the
+	// slice itself, not a copy); the X token edits them all afterwards
+	var ownedMw [][]message.HandlerMiddleware
+	var ownedPub [][]message.PublisherDecorator
+	var ownedSub [][]message.SubscriberDecorator
+	mwSlice := func(is []int) []message.HandlerMiddleware {
+		s := make([]message.HandlerMiddleware, len(is), len(is)+4)
+		for k, i := range is {
+			s[k] = recMw(l, i)
+		}
+		ownedMw = append(ownedMw, s)
+		return s
+	}
+	pubSlice := func(is []int) []message.PublisherDecorator {
+		s := make([]message.PublisherDecorator, len(is), len(is)+4)
+		for k, i := range is {
+			s[k] = recPubDec(l, i)
+		}
+		ownedPub = append(ownedPub, s)
+		return s
+	}
+	subSlice := func(is []int) []message.SubscriberDecorator {
+		s := make([]message.SubscriberDecorator, len(is), len(is)+4)
+		for k, i := range is {
+			s[k] = recSubDec(l, i)
+		}
+		ownedSub = append(ownedSub, s)
+		return s
+	}
+	poison := 9000
+	callerEdits := func() {
+		// a second router of the application gets the same slices, extended on their spare capacity; then the
+		// application overwrites the elements it had passed to the first router
+		r2, err := message.NewRouter(message.RouterConfig{}, watermill.NopLogger{})
+		if err != nil {
+			return
+		}
+		for _, s := range ownedMw {
+			poison++
+			r2.AddMiddleware(append(s, recMw(l, poison))...)
+			for k := range s {
+				poison++
+				s[k] = recMw(l, poison)
+			}
+		}
+		for _, s := range ownedPub {
+			poison++
+			r2.AddPublisherDecorators(append(s, recPubDec(l, poison))...)
+			for k := range s {
+				poison++
+				s[k] = recPubDec(l, poison)
+			}
+		}
+		for _, s := range ownedSub {
+			poison++
+			r2.AddSubscriberDecorators(append(s, recSubDec(l, poison))...)
+			for k := range s {
+				poison++
+				s[k] = recSubDec(l, poison)
+			}
+		}
+	}
 	find := func(i int) *hstate {
 		for _, h := range hs {
 			if h.idx == i {
@@ -313,6 +375,8 @@ func runCase(req string) (obs string) {
 			} else {
 				blocks = append(blocks, strings.Join(entries, ";"))
 			}
+		case t == "X":
+			callerEdits()
 		case strings.HasPrefix(t, "G"):
 			// a RouterPlugin that registers when Run executes it
 			var acts []func(*message.Router)
@@ -327,21 +391,15 @@ func runCase(req string) (obs string) {
 				switch it[0] {
 				case 'R':
 					acts = append(acts, func(r *message.Router) {
-						for _, i := range is {
-							r.AddMiddleware(recMw(l, i))
-						}
+						r.AddMiddleware(mwSlice(is)...)
 					})
 				case 'P':
 					acts = append(acts, func(r *message.Router) {
-						for _, i := range is {
-							r.AddPublisherDecorators(recPubDec(l, i))
-						}
+						r.AddPublisherDecorators(pubSlice(is)...)
 					})
 				case 'S':
 					acts = append(acts, func(r *message.Router) {
-						for _, i := range is {
-							r.AddSubscriberDecorators(recSubDec(l, i))
-						}
+						r.AddSubscriberDecorators(subSlice(is)...)
 					})
 				default:
 					return "bad-op"
@@ -375,10 +433,7 @@ func runCase(req string) (obs string) {
 					if err != nil || !ok || find(hi) == nil {
 						return "bad-op"
 					}
-					mws := make([]message.HandlerMiddleware, len(is))
-					for k, i := range is {
-						mws[k] = recMw(l, i)
-					}
+					mws := mwSlice(is)
 					sc = append(sc, call{find(hi), mws})
 				}
 				scripts = append(scripts, sc)
@@ -408,10 +463,7 @@ func runCase(req string) (obs string) {
 			if !ok {
 				return "bad-op"
 			}
-			mws := make([]message.HandlerMiddleware, len(is))
-			for k, i := range is {
-				mws[k] = recMw(l, i)
-			}
+			mws := mwSlice(is)
 			r.AddMiddleware(mws...)
 		case strings.HasPrefix(t, "H"):
 			p := strings.SplitN(t[1:], ":", 2)
@@ -423,10 +475,7 @@ func runCase(req string) (obs string) {
 			if err != nil || !ok || find(hi) == nil {
 				return "bad-op"
 			}
-			mws := make([]message.HandlerMiddleware, len(is))
-			for k, i := range is {
-				mws[k] = recMw(l, i)
-			}
+			mws := mwSlice(is)
 			find(hi).h.AddMiddleware(mws...)
 		case strings.HasPrefix(t, "A") && len(t) >= 3:
 			spec, nameTok, named := strings.Cut(t, "=")
@@ -503,20 +552,14 @@ func runCase(req string) (obs string) {
 			if !ok {
 				return "bad-op"
 			}
-			ds := make([]message.PublisherDecorator, len(is))
-			for k, i := range is {
-				ds[k] = recPubDec(l, i)
-			}
+			ds := pubSlice(is)
 			r.AddPublisherDecorators(ds...)
 		case strings.HasPrefix(t, "S"):
 			is, ok := ids(t[1:])
 			if !ok {
 				return "bad-op"
 			}
-			ds := make([]message.SubscriberDecorator, len(is))
-			for k, i := range is {
-				ds[k] = recSubDec(l, i)
-			}
+			ds := subSlice(is)
 			r.AddSubscriberDecorators(ds...)
 		default:
 			return "bad-op"
@@ -572,6 +615,9 @@ func enumSeqs(maxLen int, names [2]string, tag string, emit func(req string, tag
 					toks = append(toks, addTok(h, variant))
 				}
 			}
+			if variant == 3 {
+				toks = append(toks, "X") // the application edits the slices it passed; must change nothing
+			}
 			toks = append(toks, "RUN")
 			emit("chain "+strings.Join(toks, " "), tag+".len"+strconv.Itoa(len(prefix)))
 		}
@@ -614,7 +660,8 @@ func enumDecs(maxDec int, emit func(req string, tag string)) {
 				}
 				add("P", np)
 				add("S", ns)
-				toks = append(toks, "RUN")
+				emit("chain "+strings.Join(append(append([]string{}, toks...), "RUN"), " "), "decs")
+				toks = append(toks, "X", "RUN")
 				emit("chain "+strings.Join(toks, " "), "decs")
 			}
 		}
@@ -635,7 +682,8 @@ func randomProg(rng *wh.Rng, maxLen int) string {
 	var addedList []int
 	nDecP, nDecS := 0, 0
 	sharedSubs := rng.Intn(4) == 0
-	plugin := func() string { // a RouterPlugin registering 1..3 things when Run executes it
+	editing := rng.Intn(3) == 0 // the application reuses the slices it registered from
+	plugin := func() string {   // a RouterPlugin registering 1..3 things when Run executes it
 		var items []string
 		for k, n := 0, 1+rng.Intn(3); k < n; k++ {
 			switch rng.Intn(3) {
@@ -663,6 +711,8 @@ func randomProg(rng *wh.Rng, maxLen int) string {
 		for i := 0; i < n; i++ {
 			k := rng.Intn(10)
 			switch {
+			case editing && rng.Intn(6) == 0:
+				toks = append(toks, "X")
 			case k < 3 && rng.Intn(5) == 0:
 				toks = append(toks, plugin())
 			case k < 3:
@@ -719,6 +769,9 @@ func randomProg(rng *wh.Rng, maxLen int) string {
 		if ph == phases-1 && len(addedList) == 0 {
 			toks = append(toks, "A0p")
 		}
+		if editing {
+			toks = append(toks, "X")
+		}
 		toks = append(toks, "RUN")
 	}
 	return "chain " + strings.Join(toks, " ")
@@ -740,6 +793,27 @@ func sharedSubCases(emit func(string, string)) {
 	}
 	for _, p := range progs {
 		emit("chain "+p, "shared_decorated_subscriber")
+	}
+}
+
+// registrations made from caller-owned slices (`xs...`) with spare capacity which the application afterwards edits,
+// appends to and hands to a second router: the router's lists are value copies, no chain may change
+func callerEditCases(emit func(string, string)) {
+	progs := []string{
+		"P1,2 X A0p RUN",
+		"P1,2 P3 X A0p RUN",
+		"P1,2 X P3 X A0p RUN",
+		"S1,2 X A0p RUN",
+		"S1,2 S3,4 X A0n RUN",
+		"R1,2 X A0p RUN",
+		"R1,2 R3 X A0p A1n RUN",
+		"A0p A1p H0:1,2 H1:3 X H0:4 X RUN",
+		"P1 S2 A0p RUN X P3 S4 A1p X RUN",
+		"GP1,2+S3,4+R5,6 A0p RUN X A1p P7 X RUN",
+		"P1,2,3 S4,5,6 R7,8 A0p@1 A1n@1 H0:9,10 X RUN X RUN",
+	}
+	for _, p := range progs {
+		emit("chain "+p, "caller_edits_its_slices")
 	}
 }
 
@@ -858,6 +932,7 @@ func main() {
 	enumDecs(maxDec, emit)
 	sharedSubCases(emit)
 	pluginCases(emit)
+	callerEditCases(emit)
 	rng := wh.NewRng(a.Seed)
 	for i := 0; i < nRandom; i++ {
 		l := randLen
@@ -890,6 +965,8 @@ func main() {
 			switch {
 			case t == "RUN":
 				runs++
+			case t == "X":
+				out.Count("ops.caller_edits_slices")
 			case t[0] == 'R':
 				out.Count("ops.routerMw")
 			case t[0] == 'H':
